@@ -1,8 +1,9 @@
 package main
 
-// The sites whose faithful model depends on the iteration order (the *_refuted theorems of
-// Props_C20.v), run on the real code. Each is a known finding (known_findings.d/C20.json); the
-// oracle lines keep their own classes so that any other nondeterminism still raises.
+// The three sites that depended on the map iteration order before the fixes
+// notes/fixes/C20-hcl-{multifile-locals,remain-order,scan-type}.diff, run on the real code.
+// The known findings are recorded as fixed (known_findings.d/C20.json), so on a tree without the
+// fixes these oracle lines raise again.
 
 import (
 	"fmt"
@@ -62,7 +63,30 @@ func findingsMain(w *out.W, tier string) {
 	if len(res) > 1 {
 		w.Violation("multifile-locals", "hcl-multifile-locals", fmt.Sprintf("evaluating the same two HCL files (b.hcl: locals { y = local.x }, x defined in a.hcl) %d times: %d succeed, %d fail with Unknown variable \"local\" (file iteration order, schemahcl.State.EvalOptions)", runs*4, res["ok"], res["error"]))
 	}
-	// the _except clause on the real code: no cross-file reference -> always ok
+	// reversed names: the defining file now sorts after the using one -> always the same error
+	os.WriteFile(filepath.Join(dir, "c.hcl"), []byte("locals {\n  z = local.w\n}\n"), 0o644)
+	os.WriteFile(filepath.Join(dir, "d.hcl"), []byte("locals {\n  w = \"s3\"\n}\nschema \"main\" {\n  comment = local.z\n}\n"), 0o644)
+	res2 := map[string]int{}
+	for i := 0; i < runs*4; i++ {
+		p := hclparse.NewParser()
+		for _, f := range []string{"c.hcl", "d.hcl"} {
+			p.ParseHCLFile(filepath.Join(dir, f))
+		}
+		var r schema.Realm
+		if err := sqlite.EvalHCL.Eval(p, &r, nil); err != nil {
+			res2["error"]++
+		} else {
+			res2["ok"]++
+		}
+	}
+	w.NonTrivial("multifile-locals-rev")
+	w.ImplOnly("multifile-locals-rev", fmt.Sprintf("%d evaluations of {c.hcl: locals{z = local.w}, d.hcl: locals{w}}: %v", runs*4, res2))
+	if len(res2) > 1 {
+		w.Violation("multifile-locals-rev", "hcl-multifile-locals", fmt.Sprintf("evaluating the same two HCL files (c.hcl: locals { z = local.w }, w defined in d.hcl) %d times: %d succeed, %d fail", runs*4, res2["ok"], res2["error"]))
+	}
+	os.Remove(filepath.Join(dir, "c.hcl"))
+	os.Remove(filepath.Join(dir, "d.hcl"))
+	// no cross-file reference -> always ok
 	os.WriteFile(filepath.Join(dir, "b.hcl"), []byte("locals {\n  y = \"s2\"\n}\nschema \"main\" {\n  comment = local.y\n}\n"), 0o644)
 	okAll := true
 	for i := 0; i < runs; i++ {
